@@ -60,6 +60,11 @@ CHECKS = {
         text="Design level: EntryModel.tla models decoding and line splitting of both entry points; TLC checks EntryPointsAgree for every content up to length 6 over {a, non-ASCII, CR, LF} and every locale, instantiated with the encoding/newline arguments parse_file actually passes to open(). Implementation level: every abstract string up to a bound over a 12-class alphabet (incl. CR, LF, non-ASCII, quote, bracket, comment) plus corpus programs and their CRLF / CR / non-ASCII / no-final-newline variants is parsed through parse_file and parse_string in child interpreters under LC_ALL=C.UTF-8 and LC_ALL=C (coercion off), each with -X utf8 on/off; trees (with positions) and errors (class, message, position, text) must coincide.",
         note="Only C and C.UTF-8 locales are installed: the ASCII C locale stands for every non-UTF-8 locale (same default-encoding path).",
         ref="5/C12"),
+    "C13": dict(
+        technique="TLC enumeration of call histories and token-pull schedules (PureGen.tla) replayed into one interpreter / two gated threads; recorded outcome traces validated by TLC against Pure.tla",
+        text="PureGen.tla enumerates every call sequence of length <= 2 (and length 3: sampled in quick, all in thorough) over a pool of 40 call descriptions touching every side channel (path-literal f-strings, failing first/second pass, every macro kind incl. unfinished ones, tokenizer errors mid-stream, verbose, py_version, parse_file on one path with changing content), and every interleaving of two short parses at token-pull granularity. Histories run back to back in one process, schedules with two threads gated per token pull, plus a free-running thread pool (switch interval 1 us). Oracle: the same call in a fresh interpreter (two hash seeds). TLC validates every recorded trace (outcome = fresh outcome at each step; kept trees unchanged at the end).",
+        note="Byte-code-level preemption is only sampled (free-running pool); shared state reachable from a parse is a C-implemented lru_cache, immutable singletons and module imports.",
+        ref="5/C13"),
     "C14": dict(
         technique="TLC enumeration of statement sequences from StmtSeq.tla -> composition law checked on the real parser; tree pairs (whole vs shifted parts) trace-validated by TLC (AstEq.tla)",
         text="StmtSeq.tla lists 55 complete statement forms (Python simple/compound, multi-line tokens, comment/blank lines, every xonsh statement form incl. empty macros and path-literal concatenations); TLC enumerates every sequence of up to 2 (all kinds) / 3 (xonsh-heavy subset) kinds in quick, 3 / 4 in thorough; the body of the concatenation must equal the bodies of the parts with shifted line numbers, positions included.",
